@@ -452,6 +452,9 @@ func PlanSchedule(g *Gen, p *Program, ei int, steps [][]uint64) {
 			return
 		}
 		style := g.R.N(12) // 0: no pre-emption at all; 1: boundary only; 10, 11: victim; else mixed
+		if g.focus && style >= 5 && style < 9 {
+			style = 10 // trees with new shared state: more than half of the schedules
+		}
 		if style >= 10 {
 			// One caller advances from synchronisation event to synchronisation
 			// event (lock acquisitions, atomic operations); every time it stops,
@@ -472,8 +475,11 @@ func PlanSchedule(g *Gen, p *Program, ei int, steps [][]uint64) {
 						}
 						continue
 					}
-					// hand the processor back to the victim after every
-					// operation (To counts live tasks round-robin from ti)
+					// hand the processor back to the victim after most
+					// operations (To counts live tasks round-robin from ti)
+					if g.R.P(1, 4) {
+						continue // two operations in a row
+					}
 					to := (v - ti - 1 + nt) % nt
 					if g.R.P(1, 8) {
 						to = g.R.N(nt)
@@ -540,7 +546,7 @@ func sortPre(p []Preempt) {
 // processes, once with its epochs in order and once reversed; the results of
 // an epoch must not depend on which epochs ran before it.
 func GenerateFocus(prof *Profile, seed, run uint64, kinds []string) (*Program, *Gen) {
-	g := &Gen{R: NewRng(seed, run, prof.Name+"/focus")}
+	g := &Gen{R: NewRng(seed, run, prof.Name+"/focus"), focus: true}
 	p := &Program{Profile: prof.Name, Seed: seed, Run: run}
 	g.sharedPool(p, 2000)
 	// sweep operands
